@@ -13,7 +13,7 @@ use simple_sds::sparse_vector::SparseVector;
 
 fn direct(kind: &str, route_salt: usize, len: usize, runs: &Runs) -> AnyBv {
     // the target type's own builder routes (no conversion)
-    let routes: &[&str] = match kind { "plain" => &["raw", "push", "iter", "raw_shrunk", "raw_resized"], "sparse" => &["builder", "try_set", "extend"], _ => &["runs", "bits", "split", "set_len_steps", "zero_runs"] };
+    let routes: &[&str] = match kind { "plain" => &["raw", "push", "iter", "raw_shrunk", "raw_resized", "iter_inexact"], "sparse" => &["builder", "try_set", "extend"], _ => &["runs", "bits", "split", "set_len_steps", "zero_runs"] };
     let route = routes[route_salt % routes.len()];
     match kind {
         "plain" => {
